@@ -58,12 +58,12 @@ def pool(n, salt):
     return (head + bytes(out))[:n]
 
 
-def make():
+def make(sizes=SIZES, nmax=3):
     def fn(g):
         import conductor.cli.run as cli_run
         parallel = g.flag("parallel_slot")
-        nout = g.choose("nout", 4)
-        out_chunks = [pool(SIZES[g.choose("olen%d" % i, len(SIZES))], 10 + i) for i in range(nout)]
+        nout = g.choose("nout", nmax + 1)
+        out_chunks = [pool(sizes[g.choose("olen%d" % i, len(sizes))], 10 + i) for i in range(nout)]
         err_chunks = [pool(ERR_SIZES[g.choose("elen", len(ERR_SIZES))], 99)] if g.flag("use_stderr") else []
         err_first = g.flag("stderr_first") if err_chunks else False
         interleave = g.flag("interleave") if (err_chunks and nout >= 2) else False
@@ -281,7 +281,7 @@ def scale_fn(g):
 
 
 def spaces(tier):
-    return [Space("scale-megabyte-output", scale_fn, "1 MiB + 123 bytes on stdout (and 0.5 MiB on stderr, written concurrently) in pieces of 4096 / 5000 / "
+    sp = [Space("scale-megabyte-output", scale_fn, "1 MiB + 123 bytes on stdout (and 0.5 MiB on stderr, written concurrently) in pieces of 4096 / 5000 / "
                   "65536 bytes; sequential and parallel slot; 20000 writes of 3 bytes while cond's own stdout is not being read", depth=3,
                   goals=["output of more than one megabyte", "twenty thousand small writes while the consumer is stalled"]),
             Space("chunk-schedules", make(),
@@ -290,6 +290,10 @@ def spaces(tier):
                   goals=["sequential run teed through pipes", "task in a parallel slot", "chunk of at least one tee buffer",
                          "chunk larger than the pipe buffer"],
                   outside=["byte values as solver variables", "outputs larger than 3 x 64 KiB", "tasks that keep stdout open after exiting"])]
+    if tier == "thorough":
+        sp.append(Space("chunk-schedules-4-chunks", make(sizes=(0, 1, 4096, 4097, 8192, 65536, 131073), nmax=4),
+                        "as chunk-schedules with up to 4 stdout chunks from {0,1,4096,4097,8192,65536,131073}", depth=8, tiers=("thorough",)))
+    return sp
 
 
 def canaries(tier):
